@@ -117,6 +117,10 @@ func RandString(args ...any) (string, error) {
 	}
 }
 
+// maxRandStringLen bounds the length argument of randString: it may come from a variable,
+// i.e. from a response, and the whole string is built in memory.
+const maxRandStringLen = 1 << 20
+
 func randString(cnt any, letters string) (string, error) {
 	n, err := numbers.ParseInt(cnt)
 	if err != nil {
@@ -124,6 +128,9 @@ func randString(cnt any, letters string) (string, error) {
 	}
 	if n < 0 {
 		return "", fmt.Errorf("randString length should not be negative, but got %d", n)
+	}
+	if n > maxRandStringLen {
+		return "", fmt.Errorf("randString length should not exceed %d, but got %d", maxRandStringLen, n)
 	}
 	if n == 0 {
 		n = 1
